@@ -21,3 +21,22 @@ Proof. vm_compute. reflexivity. Qed.
 Lemma measured_partition :
   forallb (fun p => mem p inexpressible || negb (is_none (lookup p dump_table))) option_paths = true.
 Proof. vm_compute. reflexivity. Qed.
+
+(* every option the reader can store is written, and under the very key the reader recognises it by: the two
+   tables are inverse of each other in both directions.  An option the reader has a key for but the writers - probed with
+   that option alone - emit nothing for (a writer that only writes it next to another option) breaks this obligation. *)
+Definition reader_row_written (dt : list drow) (r : prow) : bool :=
+  let '(ik, (path, _, _)) := r in
+  match lookup path dt with Some (ik', _) => String.eqb ik' ik | None => false end.
+
+Lemma measured_reader_rows_written : forallb (reader_row_written dump_table) parse_table = true.
+Proof. vm_compute. reflexivity. Qed.
+
+Lemma reader_rows_written ik path p ex :
+  In (ik, (path, p, ex)) parse_table -> exists d, lookup path dump_table = Some (ik, d).
+Proof.
+  intros H. pose proof measured_reader_rows_written as M. rewrite forallb_forall in M.
+  specialize (M _ H). unfold reader_row_written in M.
+  destruct (lookup path dump_table) as [[ik' d]|]; [|discriminate].
+  apply String.eqb_eq in M. subst ik'. exists d. reflexivity.
+Qed.
